@@ -1133,6 +1133,25 @@ func c02Check(w *c02World, sp *c02Search, q *query.Query, cs c02CondShape) (stri
 	}
 	res.returned = len(got)
 	res.more = more
+	// a search reads the index files and the tag table, it does not change them: the same search again gives the same answer
+	if again, more2, _, err2 := index.SearchStreams(context.Background(), w.readers, restrict, q.ReferenceTime, q.Conditions, nil, q.Sorting, limit, skip, td, w.converters(), sp.extract); err2 != nil {
+		return fmt.Sprintf("the same search repeated failed: %v", err2), res
+	} else {
+		same := len(again) == len(got) && more2 == more
+		for i := 0; same && i < len(got); i++ {
+			same = again[i].ID() == got[i].ID()
+		}
+		if !same {
+			ids := func(l []*index.Stream) []uint64 {
+				out := make([]uint64, len(l))
+				for i, s := range l {
+					out[i] = s.ID()
+				}
+				return out
+			}
+			return fmt.Sprintf("the same search on the same index files and tag table returned ids %v more=%v first and ids %v more=%v when repeated", ids(got), more, ids(again), more2), res
+		}
+	}
 
 	describe := func() string {
 		ids := make([]uint64, len(got))
